@@ -26,7 +26,7 @@ META = {
                   "the real stepping classes for symbolic steps.",
     "level_note": "Continuation parameter modelled as one real component (the code is shape-generic numpy; no branch "
                   "depends on the dimension); members are abstract vectors. Not decided: end-to-end validity of a "
-                  "family for real seeds (numerics of the corrector: C05). Callbacks deterministic (A6).",
+                  "family for real seeds (numerics of the corrector: C05). Callbacks deterministic (A6). The secant prediction is also checked for length-1 array steps of either sign.",
     "technique": "symbolic execution of real code + ghost counters + loop invariants, path VCs discharged by z3/cvc5 (LIA+EUF)",
 }
 
